@@ -39,6 +39,10 @@ def derived_keys(labels):
     return out
 
 
+class StrSub(str):
+    """a label held as an instance of a str subclass (what some frameworks hand out): still a string"""
+
+
 def safe_repr(k):
     try:
         return repr(k)[:80]
@@ -121,6 +125,8 @@ def observe(blk, labels, foreign=None):
     pos = {id(o): i for i, o in enumerate(items)}
     n = len(labels)
     keys = [("idx", i) for i in range(-n - 2, n + 2)] + [("idx", True), ("idx", False)] + [("label", l) for l in sorted(set(labels + derived_keys(labels))) + ["zz", "missing"]] + \
+           [("label", np.str_(l)) for l in sorted(set(labels))[:2] if "\0" not in l and not any("\0" in x for x in labels)] + \
+           [("label", StrSub(l)) for l in sorted(set(labels))[:1]] + \
            [("other", None), ("other", 1.5), ("other", b"x"), ("other", np.int64(0)), ("other", ("a",))] + [("item", o) for o in items[:2] + items[-1:]] + \
            ([("foreign-item", foreign)] if foreign is not None else [])
     obs = []
@@ -146,7 +152,7 @@ def observe(blk, labels, foreign=None):
         if kk == "idx":
             mk_keys.append([Sym("idx"), kv])
         elif kk == "label":
-            mk_keys.append([Sym("label"), lid(kv)])
+            mk_keys.append([Sym("label"), lid(str(kv))])
         elif kk == "item":
             mk_keys.append([Sym("item"), pos[id(kv)]])
         elif kk == "foreign-item":
@@ -209,6 +215,7 @@ def run(ctx):
                     ctx.fail(f"{where}: out-of-range index gave {out}", rp, ident=f"{kind} out-of-range index")
                     break
             if kk == "label":
+                kv = str(kv)
                 first = labels.index(kv) if kv in labels else None
                 if first is not None and out != ("item", first):
                     ctx.fail(f"{where}: lookup by label returned {out} instead of the first item with that label ({first})", rp, ident=f"{kind} label not first")
